@@ -477,6 +477,11 @@ class Linear:
             return f_not(self.cond(test.operand, versions))
         if isinstance(test, ast.Constant):
             return TRUE if test.value else FALSE
+        if isinstance(test, ast.Name):
+            # a condition computed into a single-use local (`t = a and b; if t:`) is that condition
+            v = self._single_use_condition(test.id)
+            if v is not None:
+                return self.cond(v, versions)
         if isinstance(test, ast.Compare) and len(test.ops) == 1:
             op = test.ops[0]
             l, r = test.left, test.comparators[0]
@@ -499,6 +504,26 @@ class Linear:
             if test.func.id == "bool" and len(test.args) == 1 and not test.keywords:
                 return self.cond(test.args[0], versions)
         return self._atom(test, versions)
+
+    def _single_use_condition(self, name: str):
+        cache = self.__dict__.setdefault("_suc", {})
+        if name not in cache:
+            stores = [n for n in ast.walk(self.fn) if isinstance(n, ast.Name) and n.id == name and isinstance(n.ctx, ast.Store)]
+            loads = [n for n in ast.walk(self.fn) if isinstance(n, ast.Name) and n.id == name and isinstance(n.ctx, ast.Load)]
+            val = None
+            if len(stores) == 1 and len(loads) == 1 and not any(a.arg == name for a in ast.walk(self.fn) if isinstance(a, ast.arg)):
+                for st in ast.walk(self.fn):
+                    if isinstance(st, ast.Assign) and len(st.targets) == 1 and st.targets[0] is stores[0] and isinstance(st.value, (ast.BoolOp, ast.Compare, ast.UnaryOp, ast.Call)):
+                        # the single load must be the test of an `if` that directly follows the assignment
+                        for holder in ast.walk(self.fn):
+                            for f in ("body", "orelse", "finalbody"):
+                                b = getattr(holder, f, None)
+                                if isinstance(b, list) and st in b:
+                                    i = b.index(st)
+                                    if i + 1 < len(b) and isinstance(b[i + 1], ast.If) and b[i + 1].test is loads[0]:
+                                        val = st.value
+            cache[name] = val
+        return cache[name]
 
     def _atom(self, expr: ast.AST, versions=None) -> tuple:
         return f_atom((src(expr), self._version_of(expr, versions)))
